@@ -146,7 +146,14 @@ class Run:
         modflag = []
         if REPO == '/repo':
             try:
-                shutil.copy('/repo/go.sum', os.path.join(hdir, 'go.sum'))
+                # only when it differs, and atomically: another check may be building at the same time
+                src = open('/repo/go.sum', 'rb').read()
+                dst = os.path.join(hdir, 'go.sum')
+                if not os.path.exists(dst) or open(dst, 'rb').read() != src:
+                    tmp = '%s.%d.tmp' % (dst, os.getpid())
+                    with open(tmp, 'wb') as f:
+                        f.write(src)
+                    os.replace(tmp, dst)
             except Exception:
                 pass
         else:
